@@ -27,8 +27,8 @@ func init() {
 		ID:    "C18",
 		Level: "exploration",
 		Rule: "even cases: deterministic pauses — phase-A ids inserted and quiesced (memory / flushed / mixed), a memstore-inclusive ungrouped scan is started, inside its consumer callback at row k phase-B ids are inserted " +
-			"(into cells already delivered, not yet delivered, new periods of existing keys, new keys), ingestion is quiesced, optionally 1-2 FlushAll, then the scan continues; every delivered row must decode (base 3) to exactly the phase-A ids of its cell in all fields (SUM, COUNT, MAX, AVG, _points), no row may consist of B ids, no A cell may be missing. " +
-			"odd cases: stress — one inserter (WAL order = id order), a flusher and 4-8 scanning goroutines, each scan's decoded id set must be prefix-closed ({ids <= m}) and m monotone per scanner; race detector attributes ingest-vs-scan reports. " +
+			"(into cells already delivered, not yet delivered, new periods of existing keys, new keys), ingestion is quiesced, optionally 1-2 FlushAll, then the scan continues (every third pause also processes a point far in the future, which moves the clock past the retention of everything still undelivered); every delivered row must decode (base 3) to exactly the phase-A ids of its cell in all fields (SUM, COUNT, MAX, AVG, _points), no row may consist of B ids, no A cell may be missing. " +
+			"odd cases: stress — one inserter (WAL order = id order), a flusher and 4-8 scanning goroutines, each scan's decoded id set must be prefix-closed ({ids <= m}), m monotone per scanner, and every row consistent across its fields; race detector attributes ingest-vs-scan reports. " +
 			"non-trivial = B ids were processed while the scan was paused with rows still undelivered / >=3 distinct prefix lengths observed; distinct by (k, placement, flush) combination",
 		Assumptions: []string{"the consumer callback holds no zenodb lock, so waiting for quiescence inside it is legitimate", "ids of one cell are 3^j, j<30: sums are exact in float64"},
 		Cases: func(tier string) int {
